@@ -179,7 +179,7 @@ func TestC10_Contexts(t *testing.T) {
 	c := harness.New(t, "C10", "contexts",
 		"random literal contents of 0..12 pieces from the same alphabet, both quote styles, in every usage context of the statement: printed, concatenated on either side, assigned then printed, array element by index / whole array / join, ternary branch, object member, @each element, raw() (direct, after assignment, after concatenation), and through template directories: insert argument, insert block, component argument, slot body, raw() inside a component. Non-trivial: content has one of < > & \" ' and the context is not 'printed'. Distinct by hash of context + source.")
 	defer c.Finish()
-	runRapid(t, c, 6000, 25000, func(rt *rapid.T) {
+	runRapid(t, c, 6000, 75000, func(rt *rapid.T) {
 		content := strings.Join(rapid.SliceOfN(rapid.SampledFrom(c10Pieces), 0, 12).Draw(rt, "content"), "")
 		if strings.HasSuffix(content, "\\") {
 			content += "x"
